@@ -102,6 +102,7 @@ def _load(text, into=None):
 
 
 _CULPRIT = {}
+_MEMO = [True]  # the memo is valid only for the app's own setting definitions (switched off while a test plug-in is registered)
 
 
 def _culprits(tree):
@@ -112,15 +113,19 @@ def _culprits(tree):
     bad = []
     for k, v in tree["settings"].items():
         ck = (k, R.jkey(v))
-        if ck not in _CULPRIT:
+        if _MEMO[0] and ck in _CULPRIT:
+            fails = _CULPRIT[ck]
+        else:
             s = io.StringIO()
             YAML().dump({"settings": {k: v}}, s)
             try:
                 _load(s.getvalue())
-                _CULPRIT[ck] = False
+                fails = False
             except Exception:
-                _CULPRIT[ck] = True
-        if _CULPRIT[ck]:
+                fails = True
+            if _MEMO[0]:
+                _CULPRIT[ck] = fails
+        if fails:
             bad.append(k)
     return bad
 
@@ -913,6 +918,7 @@ def _eval_plugin(case):
     pm = getPluginManagerOrFail()
     done = []
     try:
+        _MEMO[0] = False  # diagnoses made under the test plug-in's definitions must not be remembered
         for p in regs:
             pm.register(p)
             done.append(p)
@@ -974,6 +980,7 @@ def _eval_plugin(case):
                 pm.unregister(p)
             except Exception:
                 pass
+        _MEMO[0] = True
     return V
 
 
